@@ -43,7 +43,7 @@ FLOORS = {'*': {
     'request': 500, 'response:success': 300, 'response:error': 300, 'error': 200, 'batch-request': 100,
     'batch-response': 100, 'batch-level-error': 20, 'result:null': 5, 'data:null': 5, 'data:absent': 5, 'code:0': 5,
     'message:empty': 5, 'class:registered': 50, 'class:unregistered-default-base': 50, 'class:unregistered-custom-base': 50,
-    'class:custom-base-in-batch': 20, 'encoder:nested': 20, 'history': 200, 'batch:len0': 2, 'via-client': 200, 'via-client:null-id-elements': 50,
+    'class:custom-base-in-batch': 20, 'encoder:nested': 20, 'history': 200, 'batch:len0': 2, 'via-client': 200, 'via-client:null-id-elements': 50, 'via-client:batch-level-error': 50,
 }}
 
 ABSENT = '__absent__'
@@ -522,6 +522,37 @@ def run_via_client(ctx, items, extra_null, order, strict, is_async):
     ctx.ok('via-client', cls, sample={'items': items, 'null_id_elements': extra_null, 'order': order})
 
 
+def run_via_client_batch_error(ctx, n_calls, n_notifs, spec, strict, is_async):
+    """a batch of n calls (+ notifications) sent through the real client and answered with the wire form of a BATCH-LEVEL error
+    (one error object, id null): the caller gets a batch response that IS that error and serialises to the same object"""
+    from .. import clientside
+    cls = ('via-client-batch-error', n_calls, n_notifs, repr(spec), strict, is_async)
+    try:
+        wire = v20.BatchResponse(error=make_error(spec)).to_json()
+        text = json.dumps(wire)
+
+        def transport(request_text, is_notification, kwargs):
+            return text
+        client = (clientside.AsyncClient if is_async else clientside.SyncClient)(transport, strict=strict)
+        reqs = [v20.Request(f'm{k}', [k], id=k + 1) for k in range(n_calls)] + [v20.Request(f'n{k}', [k]) for k in range(n_notifs)]
+        st, out = clientside.outcome_of(lambda: client.batch.send(v20.BatchRequest(*reqs)), is_async)
+        if st == 'exc':
+            raise Bad(f'via-client:batch-level-error:send-raises:{type(out).__name__}', exception=repr(out))
+        if not out.is_error or out.is_success:
+            raise Bad('via-client:batch-level-error-not-reported-as-one', returned=repr(out))
+        if not typed_eq(norm(out.to_json()), norm(wire)):
+            raise Bad('via-client:batch-level-error-altered', on_the_wire=wire, returned=out.to_json())
+        check_error_obj(ctx, out.to_json().get('error'), spec, 'via-client:batch-level-error')
+    except Bad as b:
+        ctx.violation(b.mech, 'via-client', cls, calls=n_calls, notifications=n_notifs, error=spec, strict=strict, **b.w)
+        return
+    except Exception as ex:
+        ctx.violation(f'via-client:batch-level-error:raises:{type(ex).__name__}', 'via-client', cls, calls=n_calls, exception=ex)
+        return
+    ctx.hit('via-client:batch-level-error')
+    ctx.ok('via-client:batch-level-error', cls, sample={'calls': n_calls, 'notifications': n_notifs, 'error': spec})
+
+
 def run_history(ctx, which, ops):
     """ops: 'ser' | ['append', id] | ['extend', [ids]] ; every serialisation must reflect the current contents"""
     cls = ('history', which, repr(ops))
@@ -648,6 +679,12 @@ def gen(ctx):
         rng.shuffle(order)
         extra = [] if rng.random() < 0.5 else [[-32600, 'Invalid Request', ABSENT]] * rng.randint(1, 2)
         yield 'via_client', dict(items=items, extra_null=extra, order=order, strict=rng.random() < 0.7, is_async=rng.random() < 0.5)
+    for n_calls in (1, 2, 3):
+        for n_notifs in (0, 1, 2):
+            for spec in ([-32600, 'Invalid Request', ABSENT], [-32700, 'Parse error', ABSENT], [5, 'm', [1]], [-32000, 'overloaded', None]):
+                for strict in (True, False):
+                    yield 'via_client_batch_error', dict(n_calls=n_calls, n_notifs=n_notifs, spec=spec, strict=strict,
+                                                         is_async=bool((n_calls + n_notifs) % 2))
     # serialise / append / extend histories
     ops_alpha = ['ser', ['append', 1], ['append', 2], ['append', None], ['extend', [3, 4]], ['extend', [5]], ['extend', []],
                  ['extend', [None, 6]]]
@@ -664,4 +701,5 @@ def gen(ctx):
 
 
 KINDS = {'request': run_request, 'response': run_response, 'error': run_error, 'batch_request': run_batch_request,
-         'batch_response': run_batch_response, 'batch_level': run_batch_level, 'history': run_history, 'via_client': run_via_client}
+         'batch_response': run_batch_response, 'batch_level': run_batch_level, 'history': run_history, 'via_client': run_via_client,
+         'via_client_batch_error': run_via_client_batch_error}
